@@ -465,8 +465,19 @@ var accessors = []acc{
 		},
 		gen: func(r *rand.Rand, n int) []byte {
 			var b []byte
+			long := n > 64
+			zeroOK := !long || r.IntN(4) == 0
 			for len(b) < n {
 				l := r.IntN(7)
+				if long { // long values (several option instances on the wire): classes of ordinary sizes, up to the 255-octet maximum
+					l = 1 + r.IntN(70)
+					if r.IntN(12) == 0 {
+						l = 255
+					}
+				}
+				if l == 0 && !zeroOK {
+					l = 1
+				}
 				b = append(b, byte(l))
 				for i := 0; i < l; i++ {
 					b = append(b, byte('a'+r.UintN(26)))
